@@ -347,8 +347,13 @@ class AirTouchSocket(Generic[comms.Hdr]):
             # wait_closed could raise an error if the socket has been closed by
             # the other side. This will already have been logged, so just
             # suppress it here.
+            # wait_closed() is shielded because it waits on a future shared by
+            # everyone waiting for this stream to close: if the task running
+            # this method is cancelled (close(), or a heartbeat task stopped
+            # during shutdown) the cancellation must not be passed on to that
+            # future, or every later wait_closed() raises CancelledError.
             with contextlib.suppress(OSError):
-                await self._writer.wait_closed()
+                await asyncio.shield(self._writer.wait_closed())
 
         self.is_connected = False
         self._reader = None
